@@ -480,3 +480,23 @@ def augassign_divisor_matches_generator(qualname, target="vals"):
     if n == 0:
         out.append(_ob(qualname, "average-divides-by-its-own-parts:none-found", False, fi.lineno, "no `x = sum(... for .. in C); x /= len(C)` pattern found"))
     return out
+
+
+def self_call_sequence(qualname, block, expected, note=""):
+    """the `self.<method>()` statements of one block of the function, in order, are exactly `expected`.  block: "while" = body of the
+    (single) while loop, "if:<test text>" = body of the if with that test, "top" = the function's own statement list"""
+    fi = source.lookup(qualname)
+    if block == "top":
+        stmts = fi.body()
+    elif block == "while":
+        loops = [n for n in ast.walk(fi.node) if isinstance(n, ast.While)]
+        stmts = loops[0].body if len(loops) == 1 else None
+    else:
+        test = block.split(":", 1)[1]
+        ifs = [n for n in ast.walk(fi.node) if isinstance(n, ast.If) and ast.unparse(n.test) == test]
+        stmts = ifs[0].body if len(ifs) == 1 else None
+    if stmts is None:
+        return [_ob(qualname, "call-order:%s" % block, False, fi.lineno, "block %s not found exactly once" % block)]
+    calls = [s.value.func.attr for s in stmts if isinstance(s, ast.Expr) and isinstance(s.value, ast.Call) and isinstance(s.value.func, ast.Attribute)
+             and isinstance(s.value.func.value, ast.Name) and s.value.func.value.id == "self"]
+    return [_ob(qualname, "call-order:%s" % block, calls == list(expected), stmts[0].lineno if stmts else fi.lineno, "expected self-calls %s, found %s. %s" % (list(expected), calls, note))]
